@@ -517,8 +517,10 @@ def rule_mask_names(check, model, rules):
                                     add('src', 'row "absorbed, partial": created parameter is not sourced to the partial object (%s)'
                                         % show(init if init else e.args[1])[:60])
                         else:
-                            if kwo_puts or kwo_pops or src_pops or src_sets:
+                            if kwo_puts or kwo_pops:
                                 add('table', 'row "absorbed by **kwargs": the signature is changed although the name is simply absorbed')
+                            if src_sets:
+                                add('src', 'row "absorbed by **kwargs": a provenance entry is written although no parameter is created')
                             if src_pops:
                                 add('src', 'row "absorbed by **kwargs": a provenance entry is removed although no parameter leaves the '
                                            'signature: a positional-only parameter (or the star parameter) of that name keeps no entry')
